@@ -7,6 +7,26 @@ BASELINE = "cd /repo && /venv/bin/python -m pytest -ra -q -p no:cacheprovider --
 
 # id -> (level category, engine, technique, level text, level note, design ref)
 CLAIMS = {
+    "C15": ("exploration", "TextSink,Trace_TextSink",
+            "TLC enumerates hostile payloads and the lexical-context transitions they exercise (TextSink.tla); transition-covering payloads placed in every text-bearing position; AST skeleton + literal comparison against a benign baseline; TLA+ monitor",
+            "23 text-bearing positions x a payload set covering every transition of the Python lexical-context automaton of TextSink.tla (thorough: all 1110 payloads of length <=3 over 10 hostile classes); each hostile document is generated next to a benign baseline; every emitted file must parse, keep its AST skeleton, and meaningful literals must evaluate to the original text",
+            "trusts ast as the judge of structure; positions are the ones the base document exposes; culprit attribution of multi-character payloads is statistical",
+            "DESIGN.md section 4 C15"),
+    "C16": ("model_checking", "Codec,MC_Codec,Gen_Codec,Gen_CodecGraphs,Trace_Codec",
+            "TLC model checking of the converter's hook-registry state machine (history independence) + TLC-generated type trees / instances / call histories replayed on the bundled converter; TLA+ trace monitor",
+            "Codec.tla defines the type language, conformance, reference Decode/Encode and the registry machine; TLC checks HistoryIndependent over all call histories <=4 over <=3 types and emits type trees (depth <=3), instances, mutated (non-conforming) inputs and cyclic instance graphs; every one is run on the real cattrs converter / DataclassSerializer in fresh interpreters and judged by Trace_Codec.tla",
+            "trusts TLC, dataclasses.make_dataclass as stand-in for generated models, the tagged-tree encoding of JSON; UUID/time leaves excluded (C03)",
+            "DESIGN.md section 4 C16; docs/C16_NOTES.md"),
+    "C17": ("model_checking", "TransportCore,Transport,Trace_Transport",
+            "TLC model checking of Transport.tla (defaults -> per-request -> plug-ins -> send) against the reference fold; every scenario replayed on the real HttpxTransport over httpx.MockTransport; TLA+ trace monitor",
+            "Transport.tla is checked over every ordered subset of <=2 (thorough 3) auth plug-ins x wrappings x header-overlap patterns x caller params/cookies, in an as-is variant (mirrors the code; its deviations are the specification-level findings) and a fixed variant (reference satisfiable); all 26k scenarios are sent through the real transport and the captured requests judged by Trace_Transport.tla",
+            "trusts TLC, httpx.MockTransport as the wire, injection by wrapping httpx.AsyncClient.__init__",
+            "DESIGN.md section 4 C17; docs/C17_NOTES.md"),
+    "C20": ("model_checking", "Naming,MC_Naming,Gen_Names,Gen_Alloc,Trace_Naming",
+            "TLC model checking of the namespace allocator (Naming.tla) + exhaustive short-string enumeration through the real sanitisers + allocation-order documents through real generation; TLA+ trace monitor",
+            "Naming.tla's allocator invariants (ValidIdent, Injective, Total, Stable) are model-checked for the loop and counter de-collision policies; all 11k strings of length <=4 over a 10-symbol alphabet (+ keyword variants) go through every derivation on the generation path; all sequences <=3 from colliding families are placed in each namespace kind of real generated packages and read back by introspection; Trace_Naming.tla judges",
+            "trusts TLC, harness-side XID classification of code points, introspection (dataclasses.fields, inspect.signature, Enum.__members__) as the read-back channel",
+            "DESIGN.md section 4 C20; docs/C20_NOTES.md"),
     "C10": ("model_checking", "GenRun,MC_GenRun,Trace_GenRun",
             "TLC model checking of GenRun.tla (stages x modes x fault points over an abstract file system); every behaviour replayed as a real generation under an audit hook with injected faults; TLA+ trace monitor",
             "GenRun.tla is checked exhaustively (1248 behaviours: existing tree x force x core layout x cwd x post-processing x fault at each of 12 stages) and each behaviour is replayed with the real generator in a sentinel-seeded sandbox; Trace_GenRun.tla judges every recorded file-system operation and the before/after snapshot against Untouched / Contained / FaultsSurface",
